@@ -4,7 +4,7 @@ from . import ctrl, loop, steps
 OWNED = ["C07.", "C15.failure_doubles_lambda", "C15.iterate_kept_after_rejection", "C15.iterate_changes_only_to_accepted_candidate", "C01.gate."]
 REQUIRED = [
     "C07.only_declared_failures_reach_compute_step", "C07.failed_trial_is_discarded", "C07.accepted_iterate_is_finite_everywhere", "C15.failure_doubles_lambda",
-    "C07.linear_solver_failure_becomes_step_solver_error", "C07.initial_point_failure_is_the_dedicated_error_before_any_step", "C07.solve_proceeds_only_from_a_finite_start",
+    "C07.linear_solver_failure_becomes_step_solver_error", "C07.initial_point_failure_is_the_dedicated_error_before_any_step", "C07.solve_proceeds_only_from_a_finite_start", "C07.initial_error_iff_a_callback_fails_at_the_start",
     "C15.iterate_kept_after_rejection", "C01.gate.stationarity",
 ]
 META = dict(
@@ -28,5 +28,6 @@ def tasks(tier):
         if not q:
             t.append(dict(module="steps", fn="h_faults", shape=dict(vars=["boxed", "free"], cons=[], solver=sv, newton="Full"), opts=o))
     t += loop.loop_tasks([dict(policy="DualNorm", cons=["eq0"], start_faults=True), dict(policy="Constant", cons=[], start_faults=True)], 1 if q else 2)
+    t += loop.loop_tasks([dict(policy="DualNorm", cons=["eq0"], start_point_faults=True), dict(policy="Constant", cons=[], vars=["lower", "free"], start_point_faults=True)], 1 if q else 2)
     t += loop.loop_tasks([dict(policy="DualNorm", cons=["eq0"])], 2 if q else 3)
     return t
